@@ -239,6 +239,8 @@ func runSess(cfg *config) {
 						d.pause(ms)
 					case "restart":
 						d.restart()
+					case "crash":
+						d.crash()
 					case "report":
 						d.report()
 					}
